@@ -3,93 +3,93 @@ NOT_APPLICABLE = {}
 TEXT = {
     "C01": dict(
         technique="runtime monitoring: supervised crash/abort/hang monitor (panic hook + catch_unwind, counting allocator, CPU-time watchdog) over boundary sweeps and generated programs, debug+release",
-        level="Exploration: every registered instruction is executed on hundreds to thousands of boundary-value states and tens of thousands of generated programs (harness grammar and pushr's own generator) are run by step() and run() in both build profiles under a supervisor that maps panics, aborts, stack overflows and CPU-burning hangs to the failing case. Held means: no crash on the executions observed; paths the generators do not reach are not covered.",
-        note="Trusts the Rust panic/abort mechanisms to surface failures; EXEC.CMD is stubbed; operand-sized allocations above the stated envelope are counted, not judged (C15).",
+        level="Exploration: every registered instruction is executed on hundreds to thousands of boundary-value states and tens of thousands of generated programs (harness grammar and pushr's own generator) are run by step() and run() in both build profiles under a supervisor that maps panics, aborts, stack overflows and CPU-burning hangs to the failing case. Long runs under budgets of 70 000 - 300 000 steps and well-formed LIST.NEIGHBOR* calls up to the envelope are included. Held means: no crash on the executions observed; paths the generators do not reach are not covered.",
+        note="Trusts the Rust panic/abort mechanisms to surface failures; EXEC.CMD is stubbed; operand-sized allocations above the stated envelope (5000 elements; 70 000 for LIST.NEIGHBOR*, whose cost is linear) are counted, not judged (C15).",
     ),
     "C04": dict(
         technique="runtime monitoring: differential step monitor against an independent reference model + frame monitor, all boundary pairs, debug/release digest comparison",
-        level="Exploration with an exhaustive core: all 256 boundary-pool operand pairs per instruction plus thousands of random pairs, each step compared on every stack with a reference model of the documented semantics; post-state digests of the debug and release builds compared.",
+        level="Exploration with an exhaustive core: all 256 boundary-pool operand pairs per instruction, every value of the extended pools (literals of pushr's source, special points of the elementary functions, each with neighbours) once as top operand, back-to-back executions on operands that compare equal and differ, plus thousands of random pairs, each step compared on every stack with a reference model of the documented semantics; post-state digests of the debug and release builds compared.",
         note="The reference model (harness/src/refm.rs, transcribed from the doc comments) is trusted; unrepresentable results are judged on shape only, as the statement allows.",
     ),
     "C05": dict(
         technique="runtime monitoring: exhaustive small-scope differential monitor with one generic position map + multiset conservation monitor",
-        level="Exhaustive on the stated grid (all 9 stack types x all ops x depths 0..7 x all index classes incl. MIN/MAX, unique element values / one-hot boolean families), compared with one generic position map; conservation checked separately. Beyond depth 7 (10 thorough) nothing is claimed.",
+        level="Exhaustive on the stated grid (all 9 stack types x all ops x depths 0..7 x all index classes incl. MIN/MAX, unique element values / one-hot boolean families, an 'empty value' variant and an equal-but-distinguishable twins variant), compared with one generic position map; conservation checked separately. Beyond depth 7 (10 thorough) nothing is claimed.",
         note="Trusts the generic position map in refm.rs::generic_stack_op; uniformity across types follows because every type is compared with the same map.",
     ),
     "C09": dict(
         technique="runtime monitoring: differential step monitor, exhaustive over small lengths/offsets, reference selected by instruction NAME",
-        level="Exhaustive over length pairs 0..4 x offsets (incl. MIN/MAX) for the overlap family and over lengths x index classes for GET/SET and the rest, with value draws from boundary pools; each step compared with the README/doc-comment reference.",
+        level="Exhaustive over length pairs 0..4 x offsets (incl. MIN/MAX) for the overlap family and over lengths x index classes for GET/SET and the rest, with value draws from boundary pools; long vectors to 48 elements; one vector of 2^24+64 elements per constructor; each step compared with the README/doc-comment reference.",
         note="Reference model trusted; SINE compared with a tolerance; RAND instructions judged by predicates (C13 has the statistics).",
     ),
     "C10": dict(
         technique="runtime monitoring: frame / conservation monitor from a declarative needs-pops-writes table over all missing-operand patterns",
-        level="Exhaustive over (instruction x operand-stack depth patterns in prod(0..=need)) for all 280 registered names, with random bystanders and guard-failing operands; every observed step is checked against the frame table.",
+        level="Exhaustive over (instruction x operand-stack depth patterns in prod(0..=need)) for all 280 registered names, with random bystanders and guard-failing operands; a context sweep (every instruction as last body item inside each control structure) and the real EXEC.CMD on a harmless target; every observed step is checked against the frame table, which covers every component of the state including flags and configuration.",
         note="The frame table (harness/src/frame.rs, from SPEC-instructions.md) is trusted.",
     ),
 }
 TEXT["C08"] = dict(
     technique="runtime monitoring: differential step monitor + direct API oracle over preorder flattening + metamorphic follow-up steps (INSERT/EXTRACT, POSITION/EXTRACT, DISCREPANCY symmetry)",
-    level="Exploration: thousands of random code trees (<= 14 points, depth <= 4, all atom kinds) with planted occurrences and near misses; every list-surgery instruction and every Item::* indexing function is compared with an independent preorder-flattening reference at every point index in [-2S,2S] and at MIN/MAX; the statement's equations are also checked as follow-up executions.",
+    level="Exploration: thousands of random code trees (<= 14 points, one in six up to 80 points; all atom kinds) with planted occurrences (also repeated at different depths), near misses (ulp neighbours, print twins, same text / different kind) and purposeful SUBST roles; every list-surgery instruction and every Item::* indexing function is compared with an independent preorder-flattening reference at every point index in [-2S,2S] and at MIN/MAX; the statement's equations are also checked as follow-up executions.",
     note="Reference (refm.rs) trusted. CODE.MEMBER is judged only on the two implications every reading of its (copied) documentation shares; CODE.= on items that print alike but differ structurally is a don't-care.",
 )
 TEXT["C03"] = dict(
     technique="runtime monitoring: crash monitor + structural differential oracle (independent token classification / tree builder) over exhaustive short token sequences, hostile random strings and random balanced trees, debug+release",
-    level="Exhaustive for all token sequences up to length 5 (7 thorough) over a hostile 8-token alphabet; exploration beyond (tens of thousands of hostile strings and balanced trees with all atom kinds, Unicode whitespace, multi-byte tails, 10^4-byte tokens, deep nesting). For balanced inputs the EXEC stack is compared structurally with the tree the text describes; for all inputs no panic and no change to any other stack.",
+    level="Exhaustive for all token sequences up to length 5 (7 thorough) over a hostile 8-token alphabet; exploration beyond (tens of thousands of hostile strings and balanced trees with all atom kinds, Unicode whitespace, multi-byte tails, 10^4-byte tokens, nesting to 4200 levels compared structurally, numbers spelled with hundreds of digits and beside f32 rounding midpoints, single-character edits of valid vector literals, user-registered instructions spelled like literals). For balanced inputs the EXEC stack is compared structurally with the tree the text describes; for all inputs no panic and no change to any other stack.",
     note="Integer/float lexical well-formedness is defined by Rust's from_str (same as the parser uses); empty-payload vector literals are a documented don't-care.",
 )
 TEXT["C16"] = dict(
     technique="runtime monitoring: operation-history checker against an executable sequential model (Vec), exhaustive small scope + long random histories, unique element ids",
-    level="Exhaustive for every history of length <= 3 (4 thorough) over 91 operation instances of the whole public API from two start states; random histories of 300 ops beyond. After every operation return value, full contents and printed form are compared with the model.",
+    level="Exhaustive for every history of length <= 3 (4 thorough) over 94 operation instances of the whole public API (incl. clone_from) from two start states; random histories of 300 ops beyond with positions up to usize::MAX, varying argument capacities, print-twin and huge elements. After every operation return value, full contents and printed form are compared with the model.",
     note="`swap(i,j)` (raw vector indices, not in the statement's list) is exercised with in-range indices only. last_eq is modelled as documented (shallow for Items).",
 )
 TEXT["C17"] = dict(
     technique="runtime monitoring: history checker against a bounded-sequence model + representation-invariant hook (verif_cursors) + differential step monitor for INPUT/OUTPUT instructions",
-    level="Exhaustive for all histories of length <= 6 (8 thorough) over {push, push_force, pop, flush} on capacities 1..5, both kinds; long random histories with many wrap-arounds; all read operations evaluated after every op; cursor invariant asserted at every quiescent point; INPUT/OUTPUT instruction sequences against a FIFO model.",
+    level="Exhaustive for all histories of length <= 6 (8 thorough) over {push, push_force, pop, flush} on capacities 1..5, both kinds; long random histories with many wrap-arounds; all read operations (incl. the iterator through nth / skip / step_by / last / count and far indices) evaluated after every op; default-valued elements and messages; cursor invariant asserted at every quiescent point; INPUT/OUTPUT instruction sequences against a FIFO model.",
     note="OUTPUT.WRITE on a full queue is dropped by the documented plain-push rule; such drops are counted in the evidence, not flagged.",
 )
 TEXT["C18"] = dict(
     technique="runtime monitoring: history checker against a set-based model keyed by returned ids (API) + differential step monitor (GRAPH.* instructions), snapshot-independence monitor",
-    level="Exhaustive for all API histories of length <= 3 (4 thorough) on 3 node slots + a never-issued id; random histories of 200 ops on 12 slots; instruction histories with valid / stale / bogus ids and history depths {-1,0,..,size,MAX}. After every op structure, getters, filter, sizes, all earlier snapshots and diff are compared with the model.",
+    level="Exhaustive for all API histories of length <= 3 (4 thorough) on 3 node slots + a never-issued id; random histories of 200 ops on 12 slots (incl. remove-and-re-add of an edge, several edges per destination, zero-like weights); instruction histories with valid / stale / bogus ids and history depths {-1,0,..,size,MAX}. After every op structure, getters, filter, sizes, all earlier snapshots and diff are compared with the model.",
     note="Query results are compared as sets (HashMap order is free); diff on graphs with NaN weights is a don't-care.",
 )
 TEXT["C20"] = dict(
     technique="runtime monitoring: exhaustive-grid differential monitor against an integer brute-force oracle + metamorphic monitors (symmetry, monotonicity, bijection) + differential step monitor for LIST.NEIGHBOR*",
-    level="Exhaustive on the stated grid: every (ntotal <= 130, ndim <= 4, index, 11 radii) in quick, ntotal to 1100 (all perfect powers) and ndim to 6 in thorough; symmetry over all pairs; decomposition bijection on every hypercube up to 20000 (300000) cells.",
+    level="Exhaustive on the stated grid: every (ntotal <= 130, ndim <= 4, index, 11 radii) in quick, ntotal to 1100 (all perfect powers) and ndim to 6 in thorough; symmetry over all pairs; decomposition bijection on every hypercube up to 20000 (300000) cells; fully filled hypercubes k^d and k^d +- 1 in 3..12 dimensions with lattice radii; totals above 2^24.",
     note="Points whose exact distance is within 1e-5 (relative) of the radius are don't-cares (f32 rounding of sqrt).",
 )
 TEXT["C06"] = dict(
     technique="runtime monitoring: trace checker over events emitted by a harness-registered probe instruction (offline comparison with the documented iteration sequence) + differential step monitor against the unfolding rules",
-    level="Exploration with exhaustive small loop counts: every n in -1..6 (12 thorough) for each loop kind, generated bodies with conditionals and loops nested to depth 3; the probe trace (INDEX stack, INTEGER top) is compared event by event with the documented sequence and the loops must leave nothing behind; every single step of these programs and of random control programs is judged against the reference unfolding rules.",
+    level="Exploration with exhaustive small loop counts: every n in -1..6 (12 thorough) for each loop kind, generated bodies with conditionals and loops nested to depth 3; the probe trace (INDEX stack, INTEGER top) is compared event by event with the documented sequence and the loops must leave nothing behind; every single step of these programs and of random control programs is judged against the reference unfolding rules; a context sweep runs every registered instruction as the last item of a body inside each control structure.",
     note="CODE.LOOP's whole-loop behaviour is a known finding (re-arm shape pinned by a unit test); its single-step shape is still judged, so a change to it is reported under a different signature.",
 )
 TEXT["C02"] = dict(
     technique="runtime monitoring: pair-of-executions comparison (run() vs an independent shadow accounting of step()) + online trace predicate over the run-loop observer hook's events",
-    level="Exploration with exhaustive boundaries: for every limit in a 10-value set and every cap in an 8-value set, programs that need n steps for every n in L-2..L+3 and steps that grow the state by g for every g in cap-2..cap+3, plus diverging, doubling and random RAND-free programs; outcome, executed step count (from the hook) and final state are compared with the shadow; every hook event is checked (counter +1, size_before = size after previous event, no step after cap exceeded, End consistent); time-limit cases with a sleeping harness instruction; empty-EXEC steps from arbitrary states.",
+    level="Exploration with exhaustive boundaries: for every limit in a 10-value set and every cap in an 8-value set, programs that need n steps for every n in L-2..L+3 and steps that grow the state by g for every g in cap-2..cap+3, plus diverging, doubling and random RAND-free programs; outcome, executed step count (from the hook) and final state are compared with the shadow; every hook event is checked (counter +1, size_before = size after previous event, no step after cap exceeded, End consistent); programs laid out as one list and item by item (growth on the very last step), initial states with CODE equal to EXEC, budgets up to 2^17 and i32::MAX, caps up to usize::MAX; time-limit cases with a sleeping harness instruction under limits of 20 ms and of about one second; empty-EXEC steps from arbitrary states.",
     note="Uses the verif hook (run-loop observer). The statement's tolerance (StepLimit after L or L+1 steps) is built into the oracle. Time is judged only through a sleep that can only overshoot.",
 )
 TEXT["C07"] = dict(
     technique="runtime monitoring: differential step monitor over define/use/quote programs + independent environment model (map + quote flag) checked after every step",
-    level="Exploration: thousands of random interleavings of define (8 types) / use / quote / redefine / CODE.DEFINITION over three names from empty and random states; after every interpreter step the complete state (all stacks, name_bindings, quote flag) is compared with the reference rules, and each name use is judged by the environment model.",
+    level="Exploration: thousands of random interleavings of define (8 types) / use / quote / redefine / CODE.DEFINITION over three names from empty and random states; after every interpreter step the complete state (all stacks, name_bindings, quote flag) is compared with the reference rules, and each name use is judged by the environment model; values include name chains, print twins and binding tables of up to 5100 names.",
     note="Reference rules for the identifier step and DEFINE family are trusted (dmon.rs::plain_step_expect, refm.rs).",
 )
 TEXT["C11"] = dict(
     technique="runtime monitoring: round-trip monitor (print -> parse -> compare / print again) over generated trees and all three print paths",
-    level="Exploration: tens of thousands of random trees over lists, ints (incl. MIN/MAX), booleans, parser-producible names, all 280 instruction names, and floats incl. non-finite / -0.0 / third-decimal rounding cases; every tree goes through Item::to_string, PushStack::to_string (several items) and CODE.PRINT; trees from pushr's own generator are round-tripped too.",
+    level="Exploration: tens of thousands of random trees (one in 24 wrapped into 20..4200 levels of nesting) over lists, ints (incl. MIN/MAX), booleans, parser-producible names incl. ones starting with invisible characters, all 280 instruction names plus user-registered ones (also registered after a first parse), and floats incl. non-finite / -0.0 / third-decimal rounding cases; every tree goes through Item::to_string, PushStack::to_string (several items) and CODE.PRINT; trees from pushr's own generator are round-tripped too.",
     note="Vector literals inside code are outside the statement (they print without their type prefix) and are not generated.",
 )
 TEXT["C12"] = dict(
     technique="runtime monitoring: predicate monitors over many draws of the unseedable generators (size, leaf membership, bounds), follow-up execution and round trip of generated programs",
-    level="Exhaustive over the parameter grid (every n in 1..80, every bound in 0..40, every k in 1..60, 3 instruction lists x 3 binding tables x 3 name probabilities, int-pool operands x 6 maxima for CODE.RAND) with D draws per setting; predicates, not equalities.",
+    level="Exhaustive over the parameter grid (every n in 1..80, every bound in 0..40, every k in 1..60, 10 instruction lists incl. random sublists of the registry x 4 binding tables x 3 name probabilities, interpreter flags and stack contents drawn per case, int-pool operands x 6 maxima for CODE.RAND) with D draws per setting; million-point programs (2^21, 2^22 points) with the size counted on the item; a rare-event budget of 4x10^8 (4x10^9 thorough) draws of the cheapest generator step; predicates, not equalities.",
     note="thread_rng cannot be seeded; a defect that shows with probability p per draw is caught with probability 1-(1-p)^D.",
 )
 TEXT["C13"] = dict(
     technique="runtime monitoring: predicate + statistical monitors (bounds, lengths, TRUE-count, rejection of invalid parameters, per-position reachability with stated false-alarm bound) over the generator API and the RAND instructions",
-    level="Exhaustive over the parameter grid with D draws per setting; reachability of every position judged only when the number of draws makes P(false alarm) <= 1e-12.",
-    note="thread_rng cannot be seeded. TRUE-count tolerance 0.005 n + 1 covers the documented two-decimal rounding.",
+    level="Exhaustive over the parameter grid with D draws per setting (incl. million-bit vectors at sparsity 0.5, intervals narrower than the printing grid, bound names with blanks and a NAME stack related to the bindings); reachability of every position judged only when the number of draws makes P(false alarm) <= 1e-12.",
+    note="thread_rng cannot be seeded. The TRUE count is judged by the exact documented computation (minority share to two decimals; an integral product met exactly, a fractional one by a neighbouring integer).",
 )
 TEXT["C14"] = dict(
     technique="runtime monitoring: pair-of-executions digest comparison (repeat, 1..16 concurrent threads, debug vs release, CLI vs library), offline uniqueness check of the node-id event log, ThreadSanitizer and Miri (thorough)",
-    level="Exploration: hundreds (thousands thorough) of RAND-free id-free programs compared across repeats, thread counts and build profiles; 800000 (millions thorough) node ids from up to 16 racing threads checked pairwise distinct; thorough runs the concurrent workload under TSan (3 runs) and Miri (8 scheduler seeds). Not an enumeration of interleavings.",
+    level="Exploration: hundreds (thousands thorough) of RAND-free id-free programs compared across repeats, thread counts and build profiles; 800000 (millions thorough) node ids from up to 16 racing threads checked pairwise distinct; every deterministic instruction on boundary operands compared between the build profiles; aged vs fresh states; the front end run among decoy files and on programs of about 1000 steps; thorough adds a walk of the node-id space past 2^32 (4.3x10^9 creations on 16 threads) and runs the concurrent workload under TSan (3 runs) and Miri (8 scheduler seeds, deterministic floats). Not an enumeration of interleavings.",
     note="Programs that leave the resource envelope are skipped (counted). The CLI is compared on terminating programs only (it has no step limit).",
 )
 TEXT["C19"] = dict(
@@ -99,6 +99,6 @@ TEXT["C19"] = dict(
 )
 TEXT["C15"] = dict(
     technique="runtime monitoring: resource monitor (counting/capping global allocator, process CPU clock with in-process watchdog, supervised worker processes mapping aborts and hangs to the running case)",
-    level="Exhaustive over (135 instructions with INTEGER/FLOAT operands x operand positions x 9 integer / 6 float probe values x 2 settings of the remaining operands), one supervised step per case on a tiny state, plus 10 growth programs under the default limits. The property is violated today in 33 recorded ways (no resource policy; max_points_in_program unused) - those are listed as known findings by exact (instruction, operand position:class, resource) signature; any other pair is a fresh violation.",
+    level="Exhaustive over (135 instructions with INTEGER/FLOAT operands x operand positions x 9 integer / 6 float probe values x 2 settings of the remaining operands), one supervised step per case on a tiny state; INDEX-stack bounds, vector element magnitudes and spreads, and process-assigned node ids far apart are probed the same way; every instruction is also applied 60 times in a row to one evolving state; plus 10 growth programs under the default limits. The property is violated today in 34 recorded ways (no resource policy; max_points_in_program unused) - those are listed as known findings by exact (instruction, operand position:class, resource) signature; any other pair is a fresh violation.",
     note="Bound per step: 1 MiB + 64 x state bytes + 64 x configured limits; hang = more than 3 (10) CPU-seconds in one step. Thresholds are 3+ orders of magnitude above normal cost, independent of machine load.",
 )
